@@ -386,3 +386,106 @@ _harmonics(10, 10, "thorough")
 from pyvc.harness import share as _share  # noqa: E402
 from contracts import C14 as _C14  # noqa: E402,F401
 _share("C14", "sunfrac", "C13")
+
+
+@obligation("C13", "harmonics_bounded", ensures=["B-C13-harm.high-degree-gradient", "B-C13-harm.file-model"], fns=[GP + "nonSphericalAcceleration", GP + "getNonSphericalHarmonics", GP + "loadGeopotentialCoefficients"],
+            mode="R", native_only=True, samples=60,
+            bounded="BOUNDED stand-in, not a proof: 60 (quick) / 600 (thorough) sampled positions per run from 200 km altitude to 10 Earth radii, degree/order 11..20 with random coefficients "
+                    "(every coefficient of the top degree non-zero) and with each shipped geopotential file at 20x20; the symbolic proofs stop at degree 10",
+            note="the real recursion against a central finite difference of the potential U = (mu/r) sum_n sum_m (R/r)^n P_nm(sin lat)(C_nm cos m lon + S_nm sin m lon) evaluated independently (Legendre functions by "
+                 "explicit differentiation of numpy Legendre polynomials); agreement to 1e-6 of the term magnitude")
+def harmonics_bounded(vc):
+    from numpy.polynomial import legendre as npl
+    from resonaate.physics.bodies.gravitational_potential import nonSphericalAcceleration, loadGeopotentialCoefficients
+    from resonaate.common.labels import GeopotentialModel
+    from resonaate.physics.bodies import Earth
+    rng = np.random.default_rng(vc.int("seed", 0, 10 ** 9))
+    deg = vc.int("degree", 11, 20)
+    order = vc.int("order", 0, 20) % (deg + 1)
+    rad = float(Earth.radius) + 200 + (9 * float(Earth.radius)) * vc.real("height", 0, 1) ** 3
+    u = rng.normal(size=3)
+    r = rad * u / np.linalg.norm(u)
+    mu, R = float(Earth.mu), float(Earth.radius)
+
+    def potential(p, C, S, deg, order):
+        x, y, z = p
+        rr = np.sqrt(x * x + y * y + z * z)
+        s, lon = z / rr, np.arctan2(y, x)
+        tot = 0.0
+        for n in range(2, deg + 1):
+            cn = np.zeros(n + 1)
+            cn[n] = 1.0
+            for m in range(0, min(n, order) + 1):
+                pnm = (1 - s * s) ** (m / 2.0) * npl.legval(s, npl.legder(cn, m))  # no Condon-Shortley phase
+                tot += (R / rr) ** n * pnm * (C[n, m] * np.cos(m * lon) + S[n, m] * np.sin(m * lon))
+        return mu / rr * tot
+
+    def fd_grad(C, S, deg, order):
+        h = 1e-2
+        g = np.zeros(3)
+        for i in range(3):
+            e = np.zeros(3)
+            e[i] = h
+            g[i] = (potential(r + e, C, S, deg, order) - potential(r - e, C, S, deg, order)) / (2 * h)
+        return g
+    C = np.zeros((22, 22))
+    S = np.zeros((22, 22))
+    for n in range(2, deg + 1):
+        for m in range(0, n + 1):
+            sc = 1e-6 / np.sqrt(float(np.prod(np.arange(n - m + 1, n + m + 1, dtype=float)))) if m else 1e-6
+            C[n, m] = rng.normal() * sc * 10
+            S[n, m] = rng.normal() * sc * 10 if m else 0.0
+    got = np.asarray(nonSphericalAcceleration(r, mu, R, C, S, deg, order), dtype=float)
+    ref = fd_grad(C, S, deg, order)
+    # magnitude of the top-degree contribution: the tolerance must be far below it, or an index slip there would pass
+    Ctop, Stop = np.zeros_like(C), np.zeros_like(S)
+    Ctop[deg], Stop[deg] = C[deg], S[deg]
+    top = np.linalg.norm(fd_grad(Ctop, Stop, deg, order))
+    vc.ensure("B-C13-harm.high-degree-gradient", bool(np.linalg.norm(got - ref) <= 1e-3 * top + 1e-6 * np.linalg.norm(ref) + 1e-16))
+    models = list(GeopotentialModel)
+    model = models[vc.int("model", 0, 7) % len(models)]
+    Cf, Sf = loadGeopotentialCoefficients(model)
+    got_f = np.asarray(nonSphericalAcceleration(r, mu, R, Cf, Sf, 20, 20), dtype=float)
+    ref_f = fd_grad(Cf, Sf, 20, 20)
+    vc.ensure("B-C13-harm.file-model", bool(np.linalg.norm(got_f - ref_f) <= 2e-6 * np.linalg.norm(ref_f) + 1e-15))
+
+
+@obligation("C13", "ephemeris_bounded", ensures=["B-C13-ephem.sun-analytic", "B-C13-ephem.moon-analytic", "B-C13-ephem.continuous"],
+            fns=["resonaate.physics.bodies.third_body:Sun.getPosition", "resonaate.physics.bodies.third_body:Moon.getPosition", "resonaate.physics.bodies.third_body:getSegmentPosition"],
+            mode="R", native_only=True, samples=400,
+            bounded="BOUNDED stand-in, not a proof: 400 (quick) / 4000 (thorough) sampled epochs per run in 2014-2022 (uniform, and pairs straddling whole-day and 4/8/16/32-day record boundaries of the ephemeris file)",
+            note="Sun and Moon positions agree with the low-precision analytic series (Vallado alg. 29 / 31: direction within 0.6 deg resp. 1 deg - the series are mean-of-date, the file J2000 -, distance within 0.2 % resp. 1.5 %) "
+                 "and are continuous in time: the displacement over any interval dt is bounded by the bodies' geocentric speed (35 km/s, 1.3 km/s) x dt, also across record boundaries")
+def ephemeris_bounded(vc):
+    from resonaate.physics.bodies.third_body import Sun, Moon
+    from resonaate.physics.bodies import Earth
+    jd = 2456658.5 + vc.real("days", 0, 3190)
+    if vc.bool("near_record_boundary"):
+        step = 4.0 * [1, 2, 4, 8][vc.int("rec", 0, 3)]
+        jd = 2451536.5 + round((jd - 2451536.5) / step) * step + [0.0, 0.5][vc.int("half", 0, 1)]
+    dt = 10 ** vc.real("log_dt", -7, -0.3)
+    T = (jd - 2451545.0) / 36525.0
+    d2r = np.pi / 180
+    eps = (23.439291 - 0.0130042 * T) * d2r
+    M = (357.5291092 + 35999.05034 * T) * d2r
+    lam = (280.460 + 36000.771 * T + 1.914666471 * np.sin(M) + 0.019994643 * np.sin(2 * M)) * d2r
+    rs = (1.000140612 - 0.016708617 * np.cos(M) - 0.000139589 * np.cos(2 * M)) * 149597870.7
+    sun_ref = rs * np.array([np.cos(lam), np.cos(eps) * np.sin(lam), np.sin(eps) * np.sin(lam)])
+    sn = lambda a: np.sin(a * d2r)
+    cs = lambda a: np.cos(a * d2r)
+    lm = 218.32 + 481267.8813 * T + 6.29 * sn(134.9 + 477198.85 * T) - 1.27 * sn(259.2 - 413335.38 * T) + 0.66 * sn(235.7 + 890534.23 * T) \
+        + 0.21 * sn(269.9 + 954397.70 * T) - 0.19 * sn(357.5 + 35999.05 * T) - 0.11 * sn(186.6 + 966404.05 * T)
+    ph = 5.13 * sn(93.3 + 483202.03 * T) + 0.28 * sn(228.2 + 960400.87 * T) - 0.28 * sn(318.3 + 6003.18 * T) - 0.17 * sn(217.6 - 407332.20 * T)
+    par = 0.9508 + 0.0518 * cs(134.9 + 477198.85 * T) + 0.0095 * cs(259.2 - 413335.38 * T) + 0.0078 * cs(235.7 + 890534.23 * T) + 0.0028 * cs(269.9 + 954397.70 * T)
+    rm = float(Earth.radius) / sn(par)
+    moon_ref = rm * np.array([cs(ph) * cs(lm), np.cos(eps) * cs(ph) * sn(lm) - np.sin(eps) * sn(ph), np.sin(eps) * cs(ph) * sn(lm) + np.cos(eps) * sn(ph)])
+    ang = lambda a, b: np.degrees(np.arccos(np.clip(np.dot(a, b) / (np.linalg.norm(a) * np.linalg.norm(b)), -1, 1)))
+    s0, m0 = np.asarray(Sun.getPosition(jd), dtype=float).reshape(3), np.asarray(Moon.getPosition(jd), dtype=float).reshape(3)
+    vc.ensure("B-C13-ephem.sun-analytic", bool(ang(s0, sun_ref) < 0.6 and abs(np.linalg.norm(s0) / rs - 1) < 2e-3))
+    vc.ensure("B-C13-ephem.moon-analytic", bool(ang(m0, moon_ref) < 1.0 and abs(np.linalg.norm(m0) / rm - 1) < 1.5e-2))
+    s1 = np.asarray(Sun.getPosition(jd + dt), dtype=float).reshape(3)
+    m1 = np.asarray(Moon.getPosition(jd + dt), dtype=float).reshape(3)
+    s_1 = np.asarray(Sun.getPosition(jd - dt), dtype=float).reshape(3)
+    m_1 = np.asarray(Moon.getPosition(jd - dt), dtype=float).reshape(3)
+    sec = dt * 86400
+    vc.ensure("B-C13-ephem.continuous", bool(max(np.linalg.norm(s1 - s0), np.linalg.norm(s0 - s_1)) <= 35.0 * sec + 1e-3 and max(np.linalg.norm(m1 - m0), np.linalg.norm(m0 - m_1)) <= 1.3 * sec + 1e-4))
